@@ -130,7 +130,9 @@ def run_check(prop: str, tier: str) -> int:
     seed = common.seed()
     sw = switches()
     q = tier == "quick"
-    cfgs = [{"workers": w, "max_fails": mf} for w in ((1, 2) if q else (1, 2, 3)) for mf in (-1, 0, 1, 2, 3)]
+    cfgs = [{"workers": w, "max_fails": mf} for w in (1, 2) for mf in (-1, 0, 1, 2, 3)]
+    if not q:
+        cfgs += [{"workers": 3, "max_fails": mf} for mf in (-1, 2)]
     text = "SPECIFICATION Spec\n" + const_text(sw, 3 if q else 4, 2) + "INVARIANT NoViolation\nINVARIANT TableOK\nCHECK_DEADLOCK FALSE\n"
     r = mbt.mc("MC_Pm", cfgs, text, timeout=1500 if q else 7000)
     model_findings: List[str] = []
